@@ -154,23 +154,32 @@ def handle_quic_packet(packet: Packet, keylog, quic_sessions: list[QuicSession],
             case _:
                 quic_version = QuicVersion.UNKNOWN
 
+    # a packet on the address/port pair of a known session belongs to it; the pair also gives the direction, so the
+    # DCID of a short header is searched only among the connection IDs of the receiving side (longest match, which
+    # may be the zero-length connection ID)
     for session in quic_sessions:
-        # first try matching connection IDs
+        if session.matches_session_dgram(packet.ip_src, packet.ip_dst, packet.sport, packet.dport):
+            if header_type != QuicHeaderType.LONG:
+                from_client = packet.ip_src == session.client_ip and packet.sport == session.client_port
+                dcid = b""
+                for cid in (session.server_cids if from_client else session.client_cids):
+                    if len(cid) > len(dcid) and cid == packet_payload[1:1 + len(cid)]:
+                        dcid = cid
+            session.handle_packet(packet, dcid, quic_version)
+            return
+
+    # unknown address/port pair: match by (non-empty) connection IDs
+    for session in quic_sessions:
         if header_type == QuicHeaderType.LONG:
-            if dcid in session.client_cids or dcid in session.server_cids:
+            if dcid and (dcid in session.client_cids or dcid in session.server_cids):
                 session.handle_packet(packet, dcid, quic_version)
                 return
         else:
             # match by checking all known cid lengths for session
             for cid in session.client_cids | session.server_cids:
-                if cid == packet_payload[1:1 + len(cid)]:
+                if cid and cid == packet_payload[1:1 + len(cid)]:
                     session.handle_packet(packet, cid, quic_version)
                     return
-
-        # check matching ip address and port for zero length cids
-        if session.matches_session_dgram(packet.ip_src, packet.ip_dst, packet.sport, packet.dport):
-            session.handle_packet(packet, dcid, quic_version)
-            return
 
     if header_type != QuicHeaderType.SHORT:
         new_session = QuicSession(packet, server_ports, keylog, portmap, keep_original_ports)
